@@ -22,9 +22,10 @@ T(p, n) == [k |-> "named", p |-> p, n |-> n]
 El(n, ty, min, max) == [k |-> "el", n |-> n, ty |-> ty, min |-> min, max |-> max]
 SeqP(min, max, ps) == [k |-> "seq", min |-> min, max |-> max, ps |-> ps]
 
-Space == {[ptype |-> a, pref |-> b, pbase |-> d, order |-> o, locals |-> lo, bname |-> bn] :
+\* farfwd: the imported file refers to ITS OWN Thing (base= and ref=) ahead of the declarations
+Space == {[ptype |-> a, pref |-> b, pbase |-> d, order |-> o, locals |-> lo, bname |-> bn, farfwd |-> ff] :
             a \in {"t", "o"}, b \in {"t", "o", "none"}, d \in {"t", "o", "none"},
-            o \in {"users_first", "users_last"}, lo \in {"none", "first", "last"}, bn \in BOOLEAN}
+            o \in {"users_first", "users_last"}, lo \in {"none", "first", "last"}, bn \in BOOLEAN, ff \in BOOLEAN}
 
 ThingType(mark) == [k |-> "complex", n |-> "Thing", base |-> None, content |-> << SeqP(1, "1", << El(mark, B("string"), 1, "1") >>) >>, attrs |-> <<>>]
 ThingElem(p) == [k |-> "element", n |-> "Thing", ty |-> T(p, "Thing")]
@@ -48,9 +49,11 @@ File1(x) == [name |-> "f1.xsd", kind |-> "xsd", tns |-> "Unear", xmlns |-> << <<
                        \o (IF x.locals = "first" THEN <<LocalHolder>> ELSE <<>>)
                        \o (IF x.order = "users_first" THEN Users(x) \o Decls(x) ELSE Decls(x) \o Users(x))
                        \o (IF x.locals = "last" THEN <<LocalHolder>> ELSE <<>>)]
-File2 == [name |-> "f2.xsd", kind |-> "xsd", tns |-> "Ufar", xmlns |-> << <<"t", "Ufar">> >>,
-          items |-> << ThingType("farMark"), ThingElem("t") >>]
-SetOf(x) == [files |-> <<File1(x), File2>>, start |-> "f1.xsd"]
+FarUser == [k |-> "complex", n |-> "FarUser", base |-> T("t", "Thing"),
+            content |-> << SeqP(1, "1", << [k |-> "ref", ref |-> [p |-> "t", n |-> "Thing"], min |-> 0, max |-> "1"] >>) >>, attrs |-> <<>>]
+File2(x) == [name |-> "f2.xsd", kind |-> "xsd", tns |-> "Ufar", xmlns |-> << <<"t", "Ufar">> >>,
+             items |-> (IF x.farfwd THEN <<FarUser>> ELSE <<>>) \o << ThingType("farMark"), ThingElem("t") >>]
+SetOf(x) == [files |-> <<File1(x), File2(x)>>, start |-> "f1.xsd"]
 
 MCInit == c \in Space
 MCSpec == MCInit /\ [][UNCHANGED c]_vars
@@ -58,7 +61,7 @@ MCSpec == MCInit /\ [][UNCHANGED c]_vars
 \* C09 at design level: every reference of the referring types is bound to the component Resolve names
 Agreement ==
   (Dev = {}) => LET S == SetOf(c) IN
-     \A t \in {t \in TypesOf(S) : t.n \in {"UserType", "DerivedUser"}} :
+     \A t \in {t \in TypesOf(S) : t.n \in {"UserType", "DerivedUser", "FarUser"}} :
         LET f == FileNamed(S, t.f) IN
         /\ ~Dropped(S, t, {})
         /\ FieldViol(ExpFields(S, f, t.it, t.it), BuiltFields(S, f, t.it, t.it, 8, {})) = {}
@@ -73,7 +76,7 @@ Distinguishes ==
 Emit == PrintT(<<"CASE", ToJson([prop |-> "C09", drv |-> "gen", start |-> "f1.xsd", files |-> SetOf(c).files, shape |-> c])>>)
 
 N(x, p, s) == [xml |-> x, pascal |-> p, snake |-> s]
-Vocab == [names |-> [Thing |-> N("Thing", "Thing", "thing"), date |-> N("date", "Date", "date"), LocalHolder |-> N("LocalHolder", "LocalHolder", "local_holder"),
+Vocab == [names |-> [FarUser |-> N("FarUser", "FarUser", "far_user"), Thing |-> N("Thing", "Thing", "thing"), date |-> N("date", "Date", "date"), LocalHolder |-> N("LocalHolder", "LocalHolder", "local_holder"),
                      UserType |-> N("UserType", "UserType", "user_type"), DerivedUser |-> N("DerivedUser", "DerivedUser", "derived_user"),
                      viaType |-> N("viaType", "ViaType", "via_type"), viaBuiltinName |-> N("viaBuiltinName", "ViaBuiltinName", "via_builtin_name"),
                      ownMark |-> N("ownMark", "OwnMark", "own_mark"), nearMark |-> N("nearMark", "NearMark", "near_mark"),
